@@ -479,6 +479,26 @@ def check_channels(run, cx, cfg):
         run.check(ok, 'frame.channels-iter', fn, cfg, 'len must be CHANNELS - next_idx', where=where(body))
 
 
+def check_channel_ref_iters(run, cx, cfg):
+    """ChannelsRef / ChannelsMut wrap the slice iterator over the frame's samples: every iterator method they override
+    must forward to the same method of the wrapped iterator (channel order = slice order)."""
+    rows = [('core::iter::traits::iterator::Iterator', 'next'), ('core::iter::traits::iterator::Iterator', 'size_hint'),
+            ('core::iter::traits::exact_size::ExactSizeIterator', 'len'), ('core::iter::traits::double_ended::DoubleEndedIterator', 'next_back')]
+    n = 0
+    for ty in ("dasp_frame::ChannelsRef<'a, F>", "dasp_frame::ChannelsMut<'a, F>"):
+        for tr, m in rows:
+            fn = '<%s as %s>::%s' % (ty, tr, m)
+            ok = is_forward(cx, fn, '::' + m)
+            if ok is None:
+                run.fail('frame.channels-ref-iter', fn, cfg, 'function not found')
+                continue
+            n += 1
+            run.check(ok, 'frame.channels-ref-iter', fn, cfg, 'must forward to the wrapped slice iterator\'s %s()' % m, where=where(cx.body(fn)))
+    run.floor('frame.channels-ref-iter', 'ChannelsRef / ChannelsMut iterator methods (%s)' % cfg, n, 8)
+    check_overrides(run, cx, cfg, 'frame.iter-inventory', lambda p: p in ('dasp_frame::Channels', 'dasp_frame::ChannelsRef', 'dasp_frame::ChannelsMut'),
+                    evaluated={fn for _, fn, _, _ in run.instances}, minimum=10)
+
+
 def check_native_add(run, facts, cfg):
     """add_amp is `Signed + Signed` in the format's Signed companion: for the companions that are the repository's own
     wrapper types (I24, I48) the `+` itself is repository code.  Decided with the C15 interval engine: for in-range
@@ -526,3 +546,4 @@ def run(run, tier, loadcfg):
         check_frame_ops(run, cx, cfg)
         check_from_iter(run, cx, cfg)
         check_channels(run, cx, cfg)
+        check_channel_ref_iters(run, cx, cfg)
